@@ -2321,3 +2321,90 @@ Proof. vm_compute. reflexivity. Qed.
 
 Lemma f23_asfound : parse_subnetport_asfound no_names f23_witness = Raise (EArgType MsgFormat).
 Proof. vm_compute. reflexivity. Qed.
+
+(* ------------------------------------------------------------------ *)
+(* cmdline.py:82-97  the --listen dispatch                             *)
+
+Lemma split_on_join_comma items :
+  items <> [] -> Forall (fun a => lacks "," a = true) items ->
+  split_on "," (join [","] items) = items.
+Proof.
+  induction items as [|a t IH]; intros Hne Hl; [congruence|].
+  inversion Hl as [|? ? Ha Ht]; subst.
+  destruct t as [|b t'].
+  - cbn [join]. apply split_on_lacks. exact Ha.
+  - change (join [","] (a :: b :: t')) with (a ++ [","] ++ join [","] (b :: t')).
+    cbn [app]. rewrite (split_on_app_sep "," _ _ Ha). f_equal. apply IH; [discriminate|exact Ht].
+Qed.
+
+Lemma parse_ipport_empty rs : exists e, parse_ipport rs [] = Raise e.
+Proof. eexists. reflexivity. Qed.
+
+Lemma listen_loop_parsed rs items : forall xs v6 v4,
+  Forall2 (fun s x => parse_ipport rs s = Ok x) items xs ->
+  listen_loop rs items v6 v4 = Ok (listen_assign xs v6 v4).
+Proof.
+  induction items as [|s t IH]; intros xs v6 v4 H; inversion H as [|? x ? xs' Hs Ht]; subst.
+  - reflexivity.
+  - cbn [listen_loop listen_assign]. rewrite Hs. destruct (is_fam6 x); apply IH; exact Ht.
+Qed.
+
+Lemma listen_assign_last xs : forall v6 v4,
+  listen_assign xs v6 v4 = (last_slot is_fam6 xs v6, last_slot (fun x => negb (is_fam6 x)) xs v4).
+Proof.
+  induction xs as [|x t IH]; intros v6 v4; [reflexivity|].
+  cbn [listen_assign last_slot]. destruct (is_fam6 x); cbn [negb]; apply IH.
+Qed.
+
+Lemma join_comma_nonempty rs items xs :
+  Forall2 (fun s x => parse_ipport rs s = Ok x) items xs -> items <> [] ->
+  nonempty (join [","] items) = true.
+Proof.
+  intros H Hne. destruct items as [|a [|b t]]; [congruence| |].
+  - cbn [join]. destruct a as [|c a]; [|reflexivity].
+    inversion H as [|? x ? ? Hs _]; subst. destruct (parse_ipport_empty rs) as [e He]. congruence.
+  - change (join [","] (a :: b :: t)) with (a ++ [","] ++ join [","] (b :: t)).
+    destruct a; reflexivity.
+Qed.
+
+Lemma listen_dispatch_last rs items xs d :
+  items <> [] -> Forall (fun a => lacks "," a = true) items ->
+  Forall2 (fun s x => parse_ipport rs s = Ok x) items xs ->
+  listen_dispatch rs (Some (join [","] items)) d =
+  Ok (last_slot is_fam6 xs LNone, last_slot (fun x => negb (is_fam6 x)) xs LNone).
+Proof.
+  intros Hne Hl H. unfold listen_dispatch.
+  rewrite (join_comma_nonempty rs items xs H Hne), (split_on_join_comma items Hne Hl).
+  rewrite (listen_loop_parsed rs items xs _ _ H). rewrite listen_assign_last. reflexivity.
+Qed.
+
+Lemma listen_loop_family rs all items : forall v6 v4 r6 r4,
+  incl items all -> slot_from rs all true v6 -> slot_from rs all false v4 ->
+  listen_loop rs items v6 v4 = Ok (r6, r4) ->
+  slot_from rs all true r6 /\ slot_from rs all false r4.
+Proof.
+  induction items as [|s t IH]; intros v6 v4 r6 r4 Hi H6 H4 H.
+  - cbn [listen_loop] in H. injection H as <- <-. split; assumption.
+  - cbn [listen_loop] in H. destruct (parse_ipport rs s) as [x|e] eqn:Hs; [|discriminate].
+    assert (Hin : In s all) by (apply Hi; left; reflexivity).
+    assert (Hi' : incl t all) by (intros y Hy; apply Hi; right; exact Hy).
+    destruct x as [[fam ip] port]. unfold is_fam6, slot_of in H. cbn [fst snd] in H.
+    destruct (fam =? AF_INET6) eqn:Hf.
+    + assert (Hn : slot_from rs all true (LAddr ip port)) by (cbn [slot_from]; exists s, fam; auto).
+      exact (IH _ _ _ _ Hi' Hn H4 H).
+    + assert (Hn : slot_from rs all false (LAddr ip port)) by (cbn [slot_from]; exists s, fam; auto).
+      exact (IH _ _ _ _ Hi' H6 Hn H).
+Qed.
+
+Lemma listen_dispatch_family rs s d r6 r4 :
+  nonempty s = true ->
+  listen_dispatch rs (Some s) d = Ok (r6, r4) ->
+  slot_from rs (split_on "," s) true r6 /\ slot_from rs (split_on "," s) false r4.
+Proof.
+  intros Hn H. unfold listen_dispatch in H. rewrite Hn in H.
+  exact (listen_loop_family rs (split_on "," s) (split_on "," s) LNone LNone r6 r4 (incl_refl _) I I H).
+Qed.
+
+Lemma listen_dispatch_absent rs d :
+  listen_dispatch rs None d = Ok (if d then LNone else LAuto, LAuto).
+Proof. reflexivity. Qed.
